@@ -263,6 +263,8 @@ pub fn run(ctx: &Ctx) {
             for j in 1..nmod {
                 probes.push((format!("t {{ v: $v{}; }}", j), if star_vis.contains(&j) { Some(format!("{}0", j)) } else { None }));
                 probes.push((format!("t {{ @include x{}; }}", j), if star_vis.contains(&j) { Some(format!("{}2", j)) } else { None }));
+                // a private member of another module is never reachable, whatever that module uses or forwards
+                probes.push((format!("t {{ v: $-p{}; }}", j), None));
             }
             // shared assignment: through two different namespaces that expose the same variable
             let used: Vec<usize> = (1..nmod).filter(|k| edge(0, *k) == 1).collect();
@@ -325,7 +327,7 @@ pub fn run(ctx: &Ctx) {
             }
         },
     );
-    ctx.bound(sub, "all 4^3 (quick) / 4^6 (thorough) graphs over 3 / 4 modules (edges i<j in {none, @use, @use as *, @forward}); per graph: load-once via @debug, CSS order, and every variable/function/mixin/private probe through every namespace and bare, plus shared assignment through pairs of namespaces", true);
+    ctx.bound(sub, "all 4^3 (quick) / 4^6 (thorough) graphs over 3 / 4 modules (edges i<j in {none, @use, @use as *, @forward}); per graph: load-once via @debug, CSS order, and every variable/function/mixin probe through every namespace and bare, every module's private variable through its namespace and bare, plus shared assignment through pairs of namespaces", true);
     ctx.sample(sub, json!({"m0.scss": "@use \"m1\"; @use \"m2\"; ...", "m1.scss": "@forward \"m3\"; ...", "m2.scss": "@use \"m3\"; ...", "oracle": "m3 evaluated once, .m3 first"}));
 
     // ---- (3) one module reached by different spellings ---------------------------------------------
